@@ -6,7 +6,7 @@ cd /verif || exit 2
 fail=0
 run() { # prop patch expect miri
   prop="$1"; p="$2"; expect="$3"; miri="$4"
-  out=$(VERIF_C14_MIRI_RUNS=$miri tools/try_patch.sh "$p" ./check "$prop" quick 2>&1)
+  out=$(VERIF_C15_MIRI_RUNS=0 VERIF_C14_MIRI_RUNS=$miri tools/try_patch.sh "$p" ./check "$prop" quick 2>&1)
   rc=$(echo "$out" | sed -n 's/^try_patch: exit=\([0-9]*\).*/\1/p')
   v=$(echo "$out" | grep -E "^violation:" | head -1 | cut -c1-200)
   if [ "$rc" = "$expect" ]; then st=OK; else st=UNEXPECTED; fail=1; fi
